@@ -3,6 +3,7 @@ See notes/C20.md and DESIGN.md section 6 (C20)."""
 import json
 import os
 import re
+import math
 import struct
 import sys
 from fractions import Fraction
@@ -11,7 +12,7 @@ import common as c
 
 PID = "C20"
 MANIFEST = {
-    "text": "27 Coq theorems, 16 over ALL doubles, all library-oracle behaviours meeting stated hypotheses: the display "
+    "text": "33 Coq theorems, 16 over ALL doubles, all library-oracle behaviours meeting stated hypotheses: the display "
             "text matches the numeral grammar (sign, integer digits grouped in threes, fraction | mantissa e exponent | "
             "NaN/Infinity/-Infinity) for every valid double (shape hypotheses on {:.N}/{:.14e}/parse + coarse bounds on "
             "log10/powi; Flocq no-overflow proof); grouping/trimming/separator insertion change no value; integers in "
@@ -25,8 +26,11 @@ MANIFEST = {
             "rounded significant digits incl. carry, for valid doubles; C20_parse_model_nearest/_close: parse = IEEE "
             "nearest-even of N/10^k; C20_powi_model_*), so the former Prop C20_accuracy_full is the theorem "
             "C20_accuracy_exec (only hypothesis: log10_sane on libm's log10, shown satisfiable) and "
-            "C20_accuracy_exact_library has no hypothesis (exact floor-log10 model); what stays trusted is that Rust's "
-            "std/libm behave like these models (ORACLE streams); model tied to the code by the "
+            "C20_accuracy_exact_library has no hypothesis (exact floor-log10 model); likewise well-formedness and "
+            "absence of panics for the executable model under log10_sane alone (C20_wellformed_exec, C20_total_exec; "
+            "summary C20_exec_complete); what stays trusted is that Rust's std/libm behave like these models (ORACLE "
+            "streams) and that libm's log10 satisfies log10_sane (LOG10SANE stream: the real f64::log10 at 10^k +- ulps "
+            "for every k and a seeded mix); model tied to the code by the "
             "DISPLAY correspondence (vm_compute vs Rust on bit patterns and boundaries); implementation-level "
             "exact-rational search of the property itself (found C20-F1, fixed in /repo 60da55e)",
     "note": "trusted: Coq kernel + vm_compute; hand transcription of format_display_number and helpers (validated by "
@@ -35,8 +39,8 @@ MANIFEST = {
             "(validated by ORACLE streams; log10 by lookup of the real function's values); axioms: none for 15 "
             "theorems, the Flocq/Reals axioms of the allow-list for C20_wellformed_total, "
             "C20_accuracy_partial_standard, C20_accuracy, C20_powi_model_*, C20_fmt_prec_model_accurate, "
-            "C20_e10_model_exact, C20_fmt_exp14_model_correct, C20_parse_model_*, C20_accuracy_exec, "
-            "C20_accuracy_exact_library",
+            "C20_e10_model_exact, C20_fmt_exp14_model_correct/_shape, C20_parse_model_*, C20_powi_model_bounds, "
+            "C20_wellformed_exec, C20_total_exec, C20_exec_complete, C20_accuracy_exec, C20_accuracy_exact_library",
     "design_ref": "DESIGN.md section 6 C20; notes/C20.md",
 }
 
@@ -312,6 +316,72 @@ def oracle_streams(h, rng, res, n):
     return total - sum(len(v) for v in mism.values())
 
 
+# --------------------------------------------------------------------------- the last hypothesis, on the real libm
+def log10_sane_stream(h, seed, res, thorough):
+    """LOG10SANE: the one hypothesis left in C20_accuracy_exec / C20_wellformed_exec (log10_sane), evaluated on
+    the real f64::log10:  k <= floor(log10 a) as i32 <= k + 1  where 10^k <= a < 10^(k+1) (k exact, by rational
+    arithmetic).  Own Rng (the other streams' inputs do not move).  A failure is a broken tie: the theorem's
+    hypothesis does not hold of the implementation's library."""
+    rng = c.Rng(seed ^ 0xC2010610)
+    width = 64 if thorough else 8
+    fam = {"pow10_neighbourhood": 0, "uniform_positive_bits": 0, "subnormal": 0, "standard_range": 0,
+           "powers_of_two": 0}
+    args = set()
+    for k in range(-323, 309):
+        pb = f2b(float("1e%d" % k))
+        for j in range(-width, width + 1):
+            b = pb + j
+            if 0 < b < 0x7ff0000000000000 and b not in args:
+                args.add(b)
+                fam["pow10_neighbourhood"] += 1
+    n = 40000 if thorough else 4000
+    for _ in range(n):
+        t = rng.below(4)
+        if t == 0:
+            b = rng.below(0x7ff0000000000000 - 1) + 1
+            key = "uniform_positive_bits"
+        elif t == 1:
+            b = rng.below((1 << 52) - 1) + 1
+            key = "subnormal"
+        elif t == 2:
+            b = ((1023 - 14 + rng.below(64)) << 52) | rng.below(1 << 52)
+            key = "standard_range"
+        else:
+            b = (rng.below(2046) + 1) << 52
+            key = "powers_of_two"
+        if b not in args:
+            args.add(b)
+            fam[key] += 1
+    args = sorted(args)
+    out = c.harness_lines_resilient(h, "c20-log10", [hx(b) for b in args])
+    bad = []
+    over = 0
+    for b, l in zip(args, out):
+        try:
+            v = b2f(int(l, 16))
+        except ValueError:
+            bad.append((hx(b), l, None))
+            continue
+        k = e10(frac_of_bits(b))
+        if v != v or v in (float("inf"), float("-inf")):
+            bad.append((hx(b), l, k))
+            continue
+        est = max(-2 ** 31, min(2 ** 31 - 1, math.floor(v)))
+        if not (k <= est <= k + 1):
+            bad.append((hx(b), l, k))
+        elif est == k + 1:
+            over += 1
+    if bad:
+        res.tie_broken("hypothesis log10_sane of C20_accuracy_exec / C20_wellformed_exec fails on the real "
+                       "f64::log10 for %d of %d arguments" % (len(bad), len(args)),
+                       "first: arg bits=%s log10 bits=%s exact decade=%s" % bad[0])
+    res.streams["LOG10SANE"] = {"args": len(args), "families": fam, "failures": len(bad),
+                                "floor_is_decade_plus_one": over,
+                                "rule": "k <= floor(f64::log10(a)) <= k+1, k = exact floor(log10 a) by rationals; "
+                                        "10^k +- %d ulps for every k in -323..308 + seeded mix" % width}
+    return len(args) - len(bad)
+
+
 # --------------------------------------------------------------------------- DISPLAY correspondence
 def model_display(h, inputs):
     """Run the model on the inputs (list of bit patterns). Returns list of (unfixed, fixed) hex texts."""
@@ -383,6 +453,11 @@ def main(argv):
     validated = 0
     try:
         validated += oracle_streams(h, rng, res, 3000 if thorough else 300)
+    except c.BrokenTie as e:
+        res.tie_broken(e.what, e.detail)
+    # ---- LOG10SANE: the remaining hypothesis of the *_exec theorems on the real libm log10
+    try:
+        validated += log10_sane_stream(h, seed, res, thorough)
     except c.BrokenTie as e:
         res.tie_broken(e.what, e.detail)
 
